@@ -48,15 +48,15 @@ Inductive cc_hk := HkRead | HkReadAt | HkWrite | HkWriteAt | HkSeek | HkTruncate
 Inductive cc_aid :=
 | ACreateT | ACreate
 | AMkdirCheck | AMkdirCreateT | AMkdirCreate
-| ASfmLookup | ASfmSet                      (* setFileMode *)
 | AOpen
 | AStatLookup | AStatRead
-| AChmodLookup | AChmodRead
-| AChtLookup | AChtSet
+| AChmodT | AChmod
+| AChtT | ACht
 | AOfLookup | AOfCreateT | AOfCreate | AOfSeekEnd | AOfTrunc
 | ARemoveT | ARemove
 | ARenameT | ARename
-| ARaUnregT | ARaUnreg | ARaScan | ARaDelete | ARaNext
+| ARemoveAllT | ARemoveAll
+| ARaUnregT | ARaUnreg | ARaScan | ARaDelete | ARaNext   (* RemoveAll before commit ce143d9 (legacy) *)
 | AHPre (k : cc_hk) | AHBody (k : cc_hk)
 | AXList.                                   (* MemMapFs.List: annotations only, never compiled *)
 
@@ -71,10 +71,9 @@ Definition cc_ctx (a : cc_aid) : cc_hmu * bool * list cc_lk :=
   match a with
   | ACreateT | ACreate | AMkdirCreateT | AMkdirCreate | AOfCreateT | AOfCreate
   | ARaUnregT | ARaUnreg => (HW, false, [])
-  | ARemoveT | ARemove | ARenameT | ARename => (HW, false, [LkW])
-  | AMkdirCheck | ASfmLookup | AOpen | AStatLookup | AChmodLookup | AChtLookup | AOfLookup => (HR, false, [])
-  | ASfmSet | AChtSet => (HW, true, [])
-  | AStatRead | AChmodRead | AOfSeekEnd | AOfTrunc => (HNone, true, [])
+  | ARemoveT | ARemove | ARenameT | ARename | ARemoveAllT | ARemoveAll | AChmodT | AChmod | AChtT | ACht => (HW, false, [LkW])
+  | AMkdirCheck | AOpen | AStatLookup | AOfLookup => (HR, false, [])
+  | AStatRead | AOfSeekEnd | AOfTrunc => (HNone, true, [])
   | ARaScan | ARaNext => (HR, false, [LkR])
   | ARaDelete => (HW, false, [LkR])
   | AHPre _ => (HNone, false, [])
@@ -122,16 +121,15 @@ Definition cc_perm (o : op) : Z :=
   match o with Mkdir _ p | MkdirAll _ p | OpenFile _ _ p => Z.land p chmod_bits | _ => 0 end.
 Definition cc_flag (o : op) : Z := match o with OpenFile _ f _ => f | _ => 0 end.
 
-(* OpenFile after the handle exists: O_APPEND, O_TRUNC, setFileMode — the code up to the next action *)
+(* OpenFile after the handle exists: O_APPEND, O_TRUNC — the code up to the next action *)
 Definition cc_of_next (stage : nat) (f : cc_frame) : list cc_instr :=
   let flag := cc_flag (fr_op f) in
   let trunc := flag_has flag o_trunc && flag_has flag (Z.lor o_rdwr o_wronly) in
-  let chmod := if fr_created f then [CcAcq LkR 0%nat; CcAct ASfmLookup] else [] in
-  let tr := if trunc then [CcAcq LkF (fr_ref f); CcAct AOfTrunc] else chmod in
+  let tr := if trunc then [CcAcq LkF (fr_ref f); CcAct AOfTrunc] else [] in
   match stage with
   | O => if flag_has flag o_append then [CcAcq LkF (fr_ref f); CcAct AOfSeekEnd] else tr
   | S O => tr
-  | _ => chmod
+  | _ => []
   end.
 
 Definition cc_ra_next (keys : list str) : list cc_instr :=
@@ -176,6 +174,16 @@ Definition cc_mkdir_body (s : mst) (name : str) (perm : Z) : mst :=
   let s2 := set_data s1 (alist_set name item (mdata s1)) in
   reg s2 item perm.
 
+(* openOrCreate's write-locked section: None = O_EXCL on an existing name *)
+Definition cc_open_or_create (s : mst) (name : str) (flag perm : Z) : option (mst * nat) :=
+  match lookup s name with
+  | Some x => if flag_has flag o_excl then None else Some (s, x)
+  | None =>
+    let '(s1, x) := alloc_node s (with_mode perm (new_file name (mclock s))) in
+    let s2 := set_data s1 (alist_set name x (mdata s1)) in
+    Some (reg s2 x 0, x)
+  end.
+
 (* the semantics of the actions; [f] is the frame of the running call *)
 Definition cc_sem (a : cc_aid) (f : cc_frame) (s0 : mst) : cc_out :=
   let s := cc_tick s0 in
@@ -196,17 +204,8 @@ Definition cc_sem (a : cc_aid) (f : cc_frame) (s0 : mst) : cc_out :=
       | Some _ => CcCont s (fr_set_res f (if cc_is_mkdirall o then ROk else RErr (EW KExist))) [CcRel LkW]
       | None =>
         let perm := cc_perm o in
-        CcCont (cc_mkdir_body s name perm) (fr_set_z f (Z.lor perm mode_dir))
-               [CcRel LkW; CcAcq LkR 0%nat; CcAct ASfmLookup]
+        CcCont (cc_mkdir_body s name perm) (fr_set_res f ROk) [CcRel LkW]
       end
-  | ASfmLookup =>
-      match lookup s name with
-      | None => CcCont s (fr_set_res f (RErr (EW KNotExist))) [CcRel LkR]
-      | Some x => CcCont s (fr_set_ref f x) [CcRel LkR; CcAcq LkW 0%nat; CcAcq LkF x; CcAct ASfmSet]
-      end
-  | ASfmSet =>
-      let r := match o with OpenFile _ _ _ => fr_res f | _ => ROk end in
-      CcCont (upd_node s (fr_ref f) (with_mode (fr_z f))) (fr_set_res f r) [CcRel LkF; CcRel LkW]
   | AOpen => let '(s1, r) := m_open s name in CcCont s1 (fr_set_res f r) [CcRel LkR]
   | AStatLookup =>
       match lookup s name with
@@ -218,49 +217,36 @@ Definition cc_sem (a : cc_aid) (f : cc_frame) (s0 : mst) : cc_out :=
       | Some n => CcCont s (fr_set_res f (RInfo (finfo_of n))) [CcRel LkF]
       | None => CcCont s (fr_set_res f RPanic) [CcRel LkF]     (* unreachable: nodes are never freed *)
       end
-  | AChmodLookup =>
-      match lookup s name with
-      | None => CcCont s (fr_set_res f (RErr (EW KNotExist))) [CcRel LkR]
-      | Some x => CcCont s (fr_set_ref f x) [CcRel LkR; CcAcq LkF x; CcAct AChmodRead]
-      end
-  | AChmodRead =>
-      let mode := match o with Chmod _ m => Z.land m chmod_bits | _ => 0 end in
-      let prev := match get_node s (fr_ref f) with Some n => Z.land (nmode n) (Z.lnot chmod_bits) | None => 0 end in
-      CcCont s (fr_set_z f (Z.lor prev mode)) [CcRel LkF; CcAcq LkR 0%nat; CcAct ASfmLookup]
-  | AChtLookup =>
-      match lookup s name with
-      | None => CcCont s (fr_set_res f (RErr (EW KNotExist))) [CcRel LkR]
-      | Some x => CcCont s (fr_set_ref f x) [CcRel LkR; CcAcq LkW 0%nat; CcAcq LkF x; CcAct AChtSet]
-      end
-  | AChtSet =>
+  | AChmodT => CcCont s f (cc_touches (cc_node_at s name) ++ [CcAct AChmod])
+  | AChmod =>
+      let m := match o with Chmod _ m => m | _ => 0 end in
+      let '(s1, r) := m_chmod s name m in CcCont s1 (fr_set_res f r) []
+  | AChtT => CcCont s f (cc_touches (cc_node_at s name) ++ [CcAct ACht])
+  | ACht =>
       let t := match o with Chtimes _ t => t | _ => 0 end in
-      CcCont (upd_node s (fr_ref f) (with_mtime t)) (fr_set_res f ROk) [CcRel LkF; CcRel LkW]
+      let '(s1, r) := m_chtimes s name t in CcCont s1 (fr_set_res f r) []
   | AOfLookup =>
+      (* without O_CREATE: openWrite *)
       let flag := cc_flag o in
       match lookup s name with
       | Some x =>
-        if flag_has flag o_excl && flag_has flag o_create
-        then CcCont s (fr_set_res f (RErr (EW KExist))) [CcRel LkR]
-        else
-          let ro := Z.eqb (Z.land flag memfs_access_mask) 0 in
-          let '(s1, h) := alloc_handle s (mkH x 0 0 false ro) in
-          let f1 := fr_set_res (fr_set_h (fr_set_ref f x) h) (RHandle h) in
-          CcCont s1 f1 (CcRel LkR :: cc_of_next 0 f1)
-      | None =>
-        if flag_has flag o_create then CcCont s f [CcRel LkR; CcAcq LkW 0%nat; CcAct AOfCreateT]
-        else CcCont s (fr_set_res f (RErr (EW KNotExist))) [CcRel LkR]
+        let ro := Z.eqb (Z.land flag memfs_access_mask) 0 in
+        let '(s1, h) := alloc_handle s (mkH x 0 0 false ro) in
+        let f1 := fr_set_res (fr_set_h (fr_set_ref f x) h) (RHandle h) in
+        CcCont s1 f1 (CcRel LkR :: cc_of_next 0 f1)
+      | None => CcCont s (fr_set_res f (RErr (EW KNotExist))) [CcRel LkR]
       end
   | AOfCreateT => CcCont s f (cc_touches (cc_touch1 s name) ++ [CcAct AOfCreate])
   | AOfCreate =>
-      (* m.Create(name): whatever is at the name by now is truncated in place / replaced *)
-      match m_create s name with
-      | (s1, RHandle h) =>
-        let x := match nth_error (mhandles s1) h with Some hd => href hd | None => 0%nat end in
-        let ro := Z.eqb (Z.land (cc_flag o) memfs_access_mask) 0 in
-        let s2 := set_handle s1 h (mkH x 0 0 false ro) in
-        let f1 := fr_set_created (fr_set_res (fr_set_h (fr_set_ref (fr_set_z f (cc_perm o)) x) h) (RHandle h)) true in
+      (* with O_CREATE: openOrCreate — lookup and creation in one write-locked section *)
+      let flag := cc_flag o in
+      let ro := Z.eqb (Z.land flag memfs_access_mask) 0 in
+      match cc_open_or_create s name flag (cc_perm o) with
+      | None => CcCont s (fr_set_res f (RErr (EW KExist))) [CcRel LkW]
+      | Some (s1, x) =>
+        let '(s2, h) := alloc_handle s1 (mkH x 0 0 false ro) in
+        let f1 := fr_set_res (fr_set_h (fr_set_ref f x) h) (RHandle h) in
         CcCont s2 f1 (CcRel LkW :: cc_of_next 0 f1)
-      | (s1, r) => CcCont s1 (fr_set_res f r) [CcRel LkW]
       end
   | AOfSeekEnd =>
       let len := match get_node s (fr_ref f) with Some n => zlen (ndata n) | None => 0 end in
@@ -283,6 +269,12 @@ Definition cc_sem (a : cc_aid) (f : cc_frame) (s0 : mst) : cc_out :=
       let q := match o with Rename _ q => q | _ => [] end in
       match m_rename s name q with
       | (_, RPanic) => CcPanic s
+      | (s1, r) => CcCont s1 (fr_set_res f r) []
+      end
+  | ARemoveAllT => CcCont s f (cc_touches (cc_touch1 s name) ++ [CcAct ARemoveAll])
+  | ARemoveAll =>
+      match m_removeall s name with
+      | (_, RPanic) => CcPanic s                (* log.Panic in unRegisterWithParent; the deferred unlock runs *)
       | (s1, r) => CcCont s1 (fr_set_res f r) []
       end
   | ARaUnregT => CcCont s f (cc_touches (cc_touch1 s name) ++ [CcAct ARaUnreg])
@@ -340,24 +332,28 @@ Inductive cc_bad := CcBadUnlock (t : nat) (l : cc_lk).
 
 Record cc_cfg := mkCcC {
   cf_st : mst; cf_mu : cc_mu; cf_fm : nat -> option nat;
-  cf_threads : list cc_thread; cf_bad : option cc_bad; cf_panics : nat }.
+  cf_threads : list cc_thread; cf_bad : option cc_bad; cf_panics : nat;
+  cf_legacy : bool      (* true: RemoveAll as it was before commit ce143d9 (kept for the record) *)
+}.
 
 Definition fr0 (o : op) : cc_frame := mkCcFr o 0%nat 0%nat 0 [] false RNoSlot.
 
 (* the first instructions of a call *)
-Definition cc_begin (o : op) (slots : list (option nat)) : cc_frame * list cc_instr :=
+Definition cc_begin (legacy : bool) (o : op) (slots : list (option nat)) : cc_frame * list cc_instr :=
   let f := fr0 o in
   match o with
   | Create _ => (f, [CcAcq LkW 0%nat; CcAct ACreateT])
   | Mkdir _ _ | MkdirAll _ _ => (f, [CcAcq LkR 0%nat; CcAct AMkdirCheck])
   | Open _ => (f, [CcAcq LkR 0%nat; CcAct AOpen])
-  | OpenFile _ _ _ => (f, [CcAcq LkR 0%nat; CcAct AOfLookup])
+  | OpenFile _ fl _ => if flag_has fl o_create then (f, [CcAcq LkW 0%nat; CcAct AOfCreateT])
+                       else (f, [CcAcq LkR 0%nat; CcAct AOfLookup])
   | Remove _ => (f, [CcAcq LkW 0%nat; CcDefer LkW; CcAct ARemoveT])
-  | RemoveAll _ => (f, [CcAcq LkW 0%nat; CcAct ARaUnregT])
+  | RemoveAll _ => if legacy then (f, [CcAcq LkW 0%nat; CcAct ARaUnregT])
+                   else (f, [CcAcq LkW 0%nat; CcDefer LkW; CcAct ARemoveAllT])
   | Rename _ _ => (f, [CcAcq LkW 0%nat; CcDefer LkW; CcAct ARenameT])
   | Stat _ => (f, [CcAcq LkR 0%nat; CcAct AStatLookup])
-  | Chmod _ _ => (f, [CcAcq LkR 0%nat; CcAct AChmodLookup])
-  | Chtimes _ _ => (f, [CcAcq LkR 0%nat; CcAct AChtLookup])
+  | Chmod _ _ => (f, [CcAcq LkW 0%nat; CcDefer LkW; CcAct AChmodT])
+  | Chtimes _ _ => (f, [CcAcq LkW 0%nat; CcDefer LkW; CcAct AChtT])
   | Chown _ _ _ => (f, [])                      (* outside the property's list: not modelled *)
   | _ =>
     match cc_hk_of o, op_handle_of o with
@@ -370,20 +366,19 @@ Definition cc_begin (o : op) (slots : list (option nat)) : cc_frame * list cc_in
     end
   end.
 
-(* which API method a section belongs to *)
+(* which API method of today's code a section belongs to (the legacy sections: none) *)
 Definition cc_aid_for (a : cc_aid) (o : op) : bool :=
   match a, o with
   | (ACreateT | ACreate), Create _ => true
   | (AMkdirCheck | AMkdirCreateT | AMkdirCreate), (Mkdir _ _ | MkdirAll _ _) => true
-  | (ASfmLookup | ASfmSet), (Mkdir _ _ | MkdirAll _ _ | OpenFile _ _ _ | Chmod _ _) => true
   | AOpen, Open _ => true
   | (AStatLookup | AStatRead), Stat _ => true
-  | (AChmodLookup | AChmodRead), Chmod _ _ => true
-  | (AChtLookup | AChtSet), Chtimes _ _ => true
+  | (AChmodT | AChmod), Chmod _ _ => true
+  | (AChtT | ACht), Chtimes _ _ => true
+  | (ARemoveAllT | ARemoveAll), RemoveAll _ => true
   | (AOfLookup | AOfCreateT | AOfCreate | AOfSeekEnd | AOfTrunc), OpenFile _ _ _ => true
   | (ARemoveT | ARemove), Remove _ => true
   | (ARenameT | ARename), Rename _ _ => true
-  | (ARaUnregT | ARaUnreg | ARaScan | ARaDelete | ARaNext), RemoveAll _ => true
   | (AHPre _ | AHBody _), _ => match op_handle_of o with Some _ => true | None => false end
   | _, _ => false
   end.
@@ -436,17 +431,17 @@ Definition th_set_held (th : cc_thread) (m : cc_hmu) (fo : option nat) : cc_thre
         m fo (th_leaked th).
 
 Definition cf_set_thread (c : cc_cfg) (t : nat) (th : cc_thread) : cc_cfg :=
-  mkCcC (cf_st c) (cf_mu c) (cf_fm c) (list_set t th (cf_threads c)) (cf_bad c) (cf_panics c).
+  mkCcC (cf_st c) (cf_mu c) (cf_fm c) (list_set t th (cf_threads c)) (cf_bad c) (cf_panics c) (cf_legacy c).
 
 (* release of lock l by thread t / th (which must hold it): the new lock state, or an unlock error *)
 Definition cc_release (c : cc_cfg) (t : nat) (th : cc_thread) (l : cc_lk) : cc_cfg :=
-  let err := mkCcC (cf_st c) (cf_mu c) (cf_fm c) (list_set t th (cf_threads c)) (Some (CcBadUnlock t l)) (cf_panics c) in
+  let err := mkCcC (cf_st c) (cf_mu c) (cf_fm c) (list_set t th (cf_threads c)) (Some (CcBadUnlock t l)) (cf_panics c) (cf_legacy c) in
   match l with
   | LkW =>
     match cf_mu c, th_mu th with
     | CcW t', HW => if Nat.eqb t t'
                     then mkCcC (cf_st c) CcFree (cf_fm c) (list_set t (th_set_held th HNone (th_f th)) (cf_threads c))
-                               (cf_bad c) (cf_panics c)
+                               (cf_bad c) (cf_panics c) (cf_legacy c)
                     else err
     | _, _ => err
     end
@@ -454,7 +449,7 @@ Definition cc_release (c : cc_cfg) (t : nat) (th : cc_thread) (l : cc_lk) : cc_c
     match cf_mu c, th_mu th with
     | CcR (S n), HR =>
       mkCcC (cf_st c) (match n with O => CcFree | S _ => CcR n end) (cf_fm c)
-            (list_set t (th_set_held th HNone (th_f th)) (cf_threads c)) (cf_bad c) (cf_panics c)
+            (list_set t (th_set_held th HNone (th_f th)) (cf_threads c)) (cf_bad c) (cf_panics c) (cf_legacy c)
     | _, _ => err
     end
   | LkF =>
@@ -463,7 +458,7 @@ Definition cc_release (c : cc_cfg) (t : nat) (th : cc_thread) (l : cc_lk) : cc_c
       match cf_fm c r with
       | Some t' => if Nat.eqb t t'
                    then mkCcC (cf_st c) (cf_mu c) (fm_set (cf_fm c) r None)
-                              (list_set t (th_set_held th (th_mu th) None) (cf_threads c)) (cf_bad c) (cf_panics c)
+                              (list_set t (th_set_held th (th_mu th) None) (cf_threads c)) (cf_bad c) (cf_panics c) (cf_legacy c)
                    else err
       | None => err
       end
@@ -473,11 +468,11 @@ Definition cc_release (c : cc_cfg) (t : nat) (th : cc_thread) (l : cc_lk) : cc_c
 
 Definition cc_acquire (c : cc_cfg) (t : nat) (th : cc_thread) (l : cc_lk) (r : nat) : cc_cfg :=
   match l with
-  | LkW => mkCcC (cf_st c) (CcW t) (cf_fm c) (list_set t (th_set_held th HW (th_f th)) (cf_threads c)) (cf_bad c) (cf_panics c)
+  | LkW => mkCcC (cf_st c) (CcW t) (cf_fm c) (list_set t (th_set_held th HW (th_f th)) (cf_threads c)) (cf_bad c) (cf_panics c) (cf_legacy c)
   | LkR => mkCcC (cf_st c) (match cf_mu c with CcR n => CcR (S n) | _ => CcR 1 end) (cf_fm c)
-                 (list_set t (th_set_held th HR (th_f th)) (cf_threads c)) (cf_bad c) (cf_panics c)
+                 (list_set t (th_set_held th HR (th_f th)) (cf_threads c)) (cf_bad c) (cf_panics c) (cf_legacy c)
   | LkF => mkCcC (cf_st c) (cf_mu c) (fm_set (cf_fm c) r (Some t))
-                 (list_set t (th_set_held th (th_mu th) (Some r)) (cf_threads c)) (cf_bad c) (cf_panics c)
+                 (list_set t (th_set_held th (th_mu th) (Some r)) (cf_threads c)) (cf_bad c) (cf_panics c) (cf_legacy c)
   end.
 
 (* do the deferred unlocks registered so far release everything that is held? *)
@@ -501,7 +496,7 @@ Definition cc_step (c : cc_cfg) (t : nat) : cc_cfg :=
       match th_prog th with
       | [] => c
       | o :: rest =>
-        let '(f, code) := cc_begin o (th_slots th) in
+        let '(f, code) := cc_begin (cf_legacy c) o (th_slots th) in
         cf_set_thread c t (mkCcT rest true code [] f (th_slots th) (th_results th) (th_mu th) (th_f th) (th_leaked th))
       end
     | NxFinish =>
@@ -522,14 +517,14 @@ Definition cc_step (c : cc_cfg) (t : nat) : cc_cfg :=
           mkCcC s (cf_mu c) (cf_fm c)
                 (list_set t (mkCcT (th_prog th) true (code ++ th_code th1) (th_defers th) f (th_slots th)
                                    (th_results th) (th_mu th) (th_f th) (th_leaked th)) (cf_threads c))
-                (cf_bad c) (cf_panics c)
+                (cf_bad c) (cf_panics c) (cf_legacy c)
         | CcPanic s =>
           (* unwinding: the rest of the call is skipped, deferred calls still run, the caller recovers *)
           let leak := negb (cc_okd (th_mu th) (match th_f th with Some _ => true | None => false end) (th_defers th)) in
           mkCcC s (cf_mu c) (cf_fm c)
                 (list_set t (mkCcT (th_prog th) true [] (th_defers th) (fr_set_res (th_fr th) RPanic) (th_slots th)
                                    (th_results th) (th_mu th) (th_f th) (th_leaked th || leak)) (cf_threads c))
-                (cf_bad c) (S (cf_panics c))
+                (cf_bad c) (S (cf_panics c)) (cf_legacy c)
         end
       end
     end
@@ -538,14 +533,50 @@ Definition cc_step (c : cc_cfg) (t : nat) : cc_cfg :=
 Definition cc_mk_thread (slots : list (option nat)) (p : list op) : cc_thread :=
   mkCcT p false [] [] (fr0 (HSync 0%nat)) slots [] HNone None false.
 
-Definition cc_init_from (s : mst) (progs : list (list (option nat) * list op)) : cc_cfg :=
-  mkCcC s CcFree (fun _ => None) (map (fun sp => cc_mk_thread (fst sp) (snd sp)) progs) None 0%nat.
+Definition cc_init_gen (legacy : bool) (s : mst) (progs : list (list (option nat) * list op)) : cc_cfg :=
+  mkCcC s CcFree (fun _ => None) (map (fun sp => cc_mk_thread (fst sp) (snd sp)) progs) None 0%nat legacy.
+Definition cc_init_from := cc_init_gen false.
 
 Definition cc_init (progs : list (list op)) : cc_cfg :=
   cc_init_from m_init (map (fun p => ([], p)) progs).
 
 Definition run_sched_from (c : cc_cfg) (sched : list nat) : cc_cfg := fold_left cc_step sched c.
 Definition run_sched (progs : list (list op)) (sched : list nat) : cc_cfg := run_sched_from (cc_init progs) sched.
+(* the same programs on the code before commit ce143d9 *)
+Definition run_sched_legacy (progs : list (list op)) (sched : list nat) : cc_cfg :=
+  run_sched_from (cc_init_gen true m_init (map (fun p => ([], p)) progs)) sched.
+
+(* a sequential prefix (setup of a case, prologue of a goroutine): slot i = handle returned by op i *)
+Fixpoint cc_seq (s : mst) (slots : list (option nat)) (ops : list op) : mst * list (option nat) :=
+  match ops with
+  | [] => (s, slots)
+  | o :: r =>
+    match op_handle_of o with
+    | None =>
+      let '(s1, x) := m_step s o in
+      cc_seq s1 (slots ++ [match x with RHandle h => Some h | _ => None end]) r
+    | Some i =>
+      match nth_error slots i with
+      | Some (Some h) => let '(s1, _) := m_step s (op_set_handle o h) in cc_seq s1 (slots ++ [None]) r
+      | _ => cc_seq s (slots ++ [None]) r
+      end
+    end
+  end.
+
+Fixpoint cc_prologues (s : mst) (progs : list (list op * list op)) : mst * list (list (option nat) * list op) :=
+  match progs with
+  | [] => (s, [])
+  | (pro, ops) :: r =>
+    let '(s1, slots) := cc_seq s [] pro in
+    let '(s2, rest) := cc_prologues s1 r in
+    (s2, (slots, ops) :: rest)
+  end.
+
+(* a case of the harness: setup, then per goroutine (prologue, concurrent ops) *)
+Definition cc_case_cfg (setup : list op) (progs : list (list op * list op)) : cc_cfg :=
+  let '(s0, _) := cc_seq m_init [] setup in
+  let '(s1, ps) := cc_prologues s0 progs in
+  cc_init_from s1 ps.
 
 (* ------------------------------------------------------------------ bad configurations *)
 Definition cc_any_unfinished (c : cc_cfg) : bool := existsb cc_unfinished (cf_threads c).
@@ -699,18 +730,19 @@ Definition acc_unregister : list cc_access :=
 
 Definition cc_acc (a : cc_aid) : list cc_access :=
   match a with
-  | ACreateT | AMkdirCreateT | AOfCreateT | ARemoveT | ARenameT | ARaUnregT => []
-  | ACreate | AOfCreate => [rd FMap; wr FMap; rdo FDirFlag; wro FData; wro FMtime] ++ acc_register
-  | AMkdirCheck | ASfmLookup | AOpen | AStatLookup | AChmodLookup | AChtLookup | AOfLookup => [rd FMap]
+  | ACreateT | AMkdirCreateT | AOfCreateT | ARemoveT | ARenameT | ARaUnregT | ARemoveAllT | AChmodT | AChtT => []
+  | ACreate => [rd FMap; wr FMap; rdo FDirFlag; wro FData; wro FMtime] ++ acc_register
+  | AOfCreate => [rd FMap; wr FMap] ++ acc_register
+  | AMkdirCheck | AOpen | AStatLookup | AOfLookup => [rd FMap]
   | AMkdirCreate => [rd FMap; wr FMap] ++ acc_register
-  | ASfmSet => [wro FMode]
   | AStatRead => [rdo FName; rdo FMode; rdo FMtime; rdo FDirFlag; rdo FData]
-  | AChmodRead => [rdo FMode]
-  | AChtSet => [wro FMtime]
+  | AChmod => [rd FMap; rdo FMode; wro FMode]
+  | ACht => [rd FMap; wro FMtime]
   | AOfSeekEnd => [rdo FData]
   | AOfTrunc => [wro FData; wro FMtime]
   | ARemove => [rd FMap; wr FMap] ++ acc_unregister
   | ARename => [rd FMap; wr FMap; mkAcc FName true true false true true] ++ acc_unregister ++ acc_register
+  | ARemoveAll => [rd FMap; wr FMap] ++ acc_unregister
   | ARaUnreg => [rd FMap] ++ acc_unregister
   | ARaScan | ARaNext => [rd FMap]
   | ARaDelete => [wr FMap]
@@ -740,9 +772,10 @@ Definition cc_acc (a : cc_aid) : list cc_access :=
 Definition cc_all_aids : list cc_aid :=
   let hks := [HkRead; HkReadAt; HkWrite; HkWriteAt; HkSeek; HkTruncate; HkClose; HkStat; HkName; HkSync;
               HkReaddir; HkReaddirnames] in
-  [ACreateT; ACreate; AMkdirCheck; AMkdirCreateT; AMkdirCreate; ASfmLookup; ASfmSet; AOpen; AStatLookup;
-   AStatRead; AChmodLookup; AChmodRead; AChtLookup; AChtSet; AOfLookup; AOfCreateT; AOfCreate; AOfSeekEnd;
-   AOfTrunc; ARemoveT; ARemove; ARenameT; ARename; ARaUnregT; ARaUnreg; ARaScan; ARaDelete; ARaNext]
+  [ACreateT; ACreate; AMkdirCheck; AMkdirCreateT; AMkdirCreate; AOpen; AStatLookup;
+   AStatRead; AChmodT; AChmod; AChtT; ACht; AOfLookup; AOfCreateT; AOfCreate; AOfSeekEnd;
+   AOfTrunc; ARemoveT; ARemove; ARenameT; ARename; ARemoveAllT; ARemoveAll;
+   ARaUnregT; ARaUnreg; ARaScan; ARaDelete; ARaNext]
   ++ map AHPre hks ++ map AHBody hks.
 
 Definition cc_mu_of (a : cc_aid) : cc_hmu := fst (fst (cc_ctx a)).
@@ -782,14 +815,14 @@ Inductive cc_kind := KCreate | KOpenFile | KMkdir | KMkdirAll | KRemove | KRemov
 Definition cc_kind_aids (k : cc_kind) : list cc_aid :=
   match k with
   | KCreate => [ACreate]
-  | KOpenFile => [AOfLookup; AOfCreate; AOfSeekEnd; AOfTrunc; ASfmLookup; ASfmSet]
-  | KMkdir | KMkdirAll => [AMkdirCheck; AMkdirCreate; ASfmLookup; ASfmSet]
+  | KOpenFile => [AOfLookup; AOfCreate; AOfSeekEnd; AOfTrunc]
+  | KMkdir | KMkdirAll => [AMkdirCheck; AMkdirCreate]
   | KRemove => [ARemove]
-  | KRemoveAll => [ARaUnreg; ARaScan; ARaDelete; ARaNext]
+  | KRemoveAll => [ARemoveAll]
   | KRename | KRenameDir => [ARename]
   | KStat => [AStatLookup; AStatRead]
-  | KChmod => [AChmodLookup; AChmodRead; ASfmLookup; ASfmSet]
-  | KChtimes => [AChtLookup; AChtSet]
+  | KChmod => [AChmod]
+  | KChtimes => [ACht]
   | KOpen => [AOpen]
   | KH k => [AHPre k; AHBody k]
   | KXList => [AXList]
@@ -808,29 +841,30 @@ Definition cc_kinds_norace (prot : cc_aid -> cc_access -> cc_aid -> cc_access ->
    harness-conc/cmd/afcheck/sections.go (which extracts the same table from the AST) *)
 Local Open Scope string_scope.
 Definition cc_locktab : list (string * string) := [
-  ("MemMapFs.Chmod", "mu.RLock mu.RUnlock if{ ret } call:Mode call:setFileMode ret");
+  ("MemMapFs.Chmod", "mu.Lock defer:mu.Unlock if{ ret } call:Mode call:SetMode ret");
   ("MemMapFs.Chown", "mu.RLock mu.RUnlock if{ ret } call:SetUID call:SetGID ret");
-  ("MemMapFs.Chtimes", "mu.RLock mu.RUnlock if{ ret } mu.Lock call:SetModTime mu.Unlock ret");
+  ("MemMapFs.Chtimes", "mu.Lock defer:mu.Unlock if{ ret } call:SetModTime ret");
   ("MemMapFs.Create", "mu.Lock call:IsDir if{ call:Truncate } else{ call:registerWithParent } mu.Unlock ret");
   ("MemMapFs.List", "for{ call:Name call:Size }");
   ("MemMapFs.LstatIfPossible", "call:Stat ret");
-  ("MemMapFs.Mkdir", "mu.RLock mu.RUnlock if{ ret } mu.Lock if{ mu.Unlock ret } call:SetMode call:registerWithParent mu.Unlock call:setFileMode ret");
+  ("MemMapFs.Mkdir", "mu.RLock mu.RUnlock if{ ret } mu.Lock if{ mu.Unlock ret } call:SetMode call:registerWithParent mu.Unlock ret");
   ("MemMapFs.MkdirAll", "call:Mkdir if{ if{ ret } ret } ret");
   ("MemMapFs.Open", "call:open if{ ret } ret");
-  ("MemMapFs.OpenFile", "call:openWrite if{ ret } if{ call:Create } if{ ret } if{ call:Seek if{ call:Close ret } } if{ call:Truncate if{ call:Close ret } } if{ call:setFileMode ret } ret");
+  ("MemMapFs.OpenFile", "if{ call:openOrCreate } else{ call:openWrite } if{ ret } if{ call:Seek if{ call:Close ret } } if{ call:Truncate if{ call:Close ret } } ret");
   ("MemMapFs.Remove", "mu.Lock defer:mu.Unlock if{ call:unRegisterWithParent if{ ret } } else{ ret } ret");
-  ("MemMapFs.RemoveAll", "mu.Lock call:unRegisterWithParent mu.Unlock mu.RLock defer:mu.RUnlock for{ if{ mu.RUnlock mu.Lock mu.Unlock mu.RLock } } ret");
+  ("MemMapFs.RemoveAll", "mu.Lock defer:mu.Unlock call:unRegisterWithParent ret");
   ("MemMapFs.Rename", "mu.Lock defer:mu.Unlock if{ if{ ret } call:unRegisterWithParent if{ ret } call:ChangeFileName call:renameDescendants if{ ret } call:registerWithParent } else{ ret } ret");
   ("MemMapFs.Stat", "call:Open if{ ret } ret");
   ("MemMapFs.findDescendants", "func{ call:Name call:Name ret } ret");
-  ("MemMapFs.findParent", "call:Name call:lockfreeOpen if{ ret } ret");
+  ("MemMapFs.findParent", "call:Name if{ ret } ret");
   ("MemMapFs.lockfreeMkdir", "if{ call:IsDir if{ ret } } else{ call:SetMode call:registerWithParent } ret");
   ("MemMapFs.open", "mu.RLock mu.RUnlock if{ ret } ret");
+  ("MemMapFs.openOrCreate", "mu.Lock defer:mu.Unlock if{ if{ ret } ret } call:SetMode call:registerWithParent ret");
   ("MemMapFs.openWrite", "call:open if{ ret } ret");
-  ("MemMapFs.registerWithParent", "if{ ret } call:findParent if{ call:Name call:lockfreeMkdir if{ ret } call:lockfreeOpen if{ ret } } parent.Lock parent.Unlock");
+  ("MemMapFs.registerWithParent", "if{ ret } call:findParent if{ call:Name call:lockfreeMkdir if{ ret } if{ ret } } parent.Lock parent.Unlock");
   ("MemMapFs.renameDescendants", "call:findDescendants for{ call:Name call:Name call:unRegisterWithParent if{ ret } call:Name call:ChangeFileName call:registerWithParent } ret");
-  ("MemMapFs.setFileMode", "mu.RLock mu.RUnlock if{ ret } mu.Lock call:SetMode mu.Unlock ret");
-  ("MemMapFs.unRegisterWithParent", "call:lockfreeOpen if{ ret } call:findParent if{ call:Name panic } parent.Lock parent.Unlock ret");
+  ("MemMapFs.setFileMode", "mu.Lock defer:mu.Unlock if{ ret } call:SetMode ret");
+  ("MemMapFs.unRegisterWithParent", "if{ ret } call:findParent if{ call:Name panic } parent.Lock parent.Unlock ret");
   ("mem.ChangeFileName", "f.Lock f.Unlock");
   ("mem.File.Close", "f.fileData.Lock if{ f.fileData.Unlock ret } f.fileData.Unlock ret");
   ("mem.File.Name", "call:Name ret");
@@ -863,3 +897,8 @@ Fixpoint cc_bytes (s : string) : str :=
   | EmptyString => []
   | String c r => Ascii.N_of_ascii c :: cc_bytes r
   end.
+
+(* the same table as byte strings (what the model runner prints): a literal, so that the extracted
+   code does not mention Coq's string type *)
+Definition cc_locktab_b : list (str * str) :=
+  Eval vm_compute in map (fun kv => (cc_bytes (fst kv), cc_bytes (snd kv))) cc_locktab.
